@@ -98,7 +98,7 @@ func verifC16(plan func(context.Context, []schema.Change, ...migrate.PlanOption)
 	sch := schema.New(name)
 	other := schema.New("w" + name)
 	set := verifChoice("set", 11)
-	mode := verifChoice("qualifier", 3)
+	mode := verifChoice("qualifier", 5)
 	changes := verifChangeSet(set, sch, other)
 	var opts []migrate.PlanOption
 	q := ""
@@ -108,6 +108,12 @@ func verifC16(plan func(context.Context, []schema.Change, ...migrate.PlanOption)
 		opts = append(opts, func(o *migrate.PlanOptions) { o.SchemaQualifier = &empty })
 	case 1:
 		q = verifMarker("q", 'u', 'w')
+		opts = append(opts, func(o *migrate.PlanOptions) { o.SchemaQualifier = &q })
+	case 3: // the qualifier happens to be the name of the schema itself
+		q = name
+		opts = append(opts, func(o *migrate.PlanOptions) { o.SchemaQualifier = &q })
+	case 4: // ... or the name of the second schema of a two-schema change set
+		q = other.Name
 		opts = append(opts, func(o *migrate.PlanOptions) { o.SchemaQualifier = &q })
 	}
 	p, err := plan(context.Background(), changes, opts...)
@@ -129,6 +135,8 @@ func verifC16(plan func(context.Context, []schema.Change, ...migrate.PlanOption)
 		case 1:
 			verifAssert(!strings.Contains(st, name), "with a custom qualifier the schema name is not used")
 			verifAssert(verifQualified(st, q, open, close), "every table reference uses exactly the requested qualifier")
+		case 3, 4:
+			verifAssert(verifQualified(st, q, open, close), "every table reference uses exactly the requested qualifier (equal to a schema name)")
 		}
 	}
 }
